@@ -231,9 +231,12 @@ pub fn search<M: Model>(ctx: &Ctx, model: &M, prop: &'static str, max_depth: usi
     let mut last_time = 0.0;
     let mut last_execs = 1u64;
     let mut growth = model.n_events() as f64 / 2.0;
+    // quick tier: the depth given by the caller is THE bound (work-bounded, machine-independent); the clock is a safety net
+    let quick = ctx.tier.is_quick();
+    let deadline_s = if quick { ctx.hard_cap_s() } else { deadline_s };
     for depth in 1..=max_depth {
         let remaining = deadline_s - ctx.elapsed();
-        if depth > 2 && last_time * growth > remaining {
+        if !quick && depth > 2 && last_time * growth > remaining {
             eprintln!("[{}] {} depth {}: estimated {:.0}s > remaining {:.0}s: not started", prop, model.name(), depth, last_time * growth, remaining);
             break;
         }
